@@ -182,7 +182,7 @@ func sameSet(a, b map[uint64]bool) bool {
 
 func overflows(rs []hrange) bool {
 	for _, r := range rs {
-		if r.Off+r.Len < r.Off {
+		if r.Off+r.Len < r.Off || r.Len > 1<<20 { // wraps, or too large for an explicit set
 			return true
 		}
 	}
@@ -195,7 +195,7 @@ func (g *gen) rangesMerge(rs []hrange) {
 	rr.SortAndMerge()
 	out := fromRealRanges(rr)
 	d := map[string]interface{}{"op": "Ranges.SortAndMerge", "ranges": fmt.Sprint(rs)}
-	idx := c.Add("ranges_sortmerge", fmt.Sprintf("CRMerge %s %s", rangesLit(rs), rangesLit(out)), d, len(setOf(rs)) > 0 && !overflows(rs))
+	idx := c.Add("ranges_sortmerge", fmt.Sprintf("CRMerge %s %s", rangesLit(rs), rangesLit(out)), d, !overflows(rs) && len(setOf(rs)) > 0)
 	if overflows(rs) {
 		return // the property is stated for ranges that fit in the address space
 	}
